@@ -174,6 +174,9 @@ func cmdCheck(args []string) int {
 				if !hasProp(fc.Props, *prop) || fc.Trusted {
 					continue
 				}
+				if os.Getenv("GOVC_DEBUG") != "" {
+					fmt.Fprintf(os.Stderr, "[%.1fs] gen %s\n", time.Since(t0).Seconds(), key)
+				}
 				r := genFunction(u, pi, fc)
 				name := shortPkg(pi.Path) + "." + key
 				foundFns[name] = true
@@ -240,7 +243,13 @@ func cmdCheck(args []string) int {
 			failures = append(failures, failure{obl: g.name + "#nonvacuous", reason: "no obligations were generated for this function (vacuous check)"})
 		}
 	}
+	if os.Getenv("GOVC_DEBUG") != "" {
+		fmt.Fprintf(os.Stderr, "[%.1fs] solving %d obligations\n", time.Since(t0).Seconds(), len(obls))
+	}
 	results := solveAll(obls, dir, timeout, 6)
+	if os.Getenv("GOVC_DEBUG") != "" {
+		fmt.Fprintf(os.Stderr, "[%.1fs] solved\n", time.Since(t0).Seconds())
+	}
 	// retry non-proved once with a longer timeout (robustness against load)
 	for i := range results {
 		if results[i].Res.Status == "unknown" {
